@@ -14,6 +14,8 @@ import (
 func init() { register("C14", c14) }
 
 // c14Roots: everything that runs as part of block processing.
+var c14RootClasses map[string]int
+
 func c14Roots(c *Check) []*ssa.Function {
 	seen := map[*ssa.Function]bool{}
 	var roots []*ssa.Function
@@ -33,6 +35,8 @@ func c14Roots(c *Check) []*ssa.Function {
 			ifaceMethods[n+"."+it.Method(i).Name()] = true
 		}
 	}
+	classes := map[string]int{"xibc message servers": 0, "aggregate message servers": 0, "EVM hooks": 0, "IBC middleware": 0, "upgrade handlers": 0}
+	c14RootClasses = classes
 	for fn := range c.P.AllFuncs {
 		if !inScope(fn) || len(fn.Blocks) == 0 {
 			continue
@@ -42,16 +46,21 @@ func c14Roots(c *Check) []*ssa.Function {
 		// message servers
 		case strings.HasPrefix(name, "xibc/keeper.(Keeper).") && (fn.Name() == "UpdateClient" || fn.Name() == "RecvPacket" || fn.Name() == "Acknowledgement"):
 			add(fn)
+			classes["xibc message servers"]++
 		case strings.HasPrefix(name, "aggregate/keeper.(Keeper).") && (fn.Name() == "ConvertCoin" || fn.Name() == "ConvertERC20"):
 			add(fn)
+			classes["aggregate message servers"]++
 		// EVM hooks and IBC middleware
 		case fn.Name() == "PostTxProcessing":
 			add(fn)
+			classes["EVM hooks"]++
 		case strings.HasPrefix(name, "x/aggregate.(IBCMiddleware).") || strings.HasPrefix(name, "teleport/ibc.(Module)."):
 			add(fn)
+			classes["IBC middleware"]++
 		// upgrade handlers
-		case strings.HasPrefix(name, "teleport/app.(*Teleport).registerUpgradeHandlers$"):
+		case strings.HasPrefix(name, "teleport/app.registerUpgradeHandlers$"):
 			add(fn)
+			classes["upgrade handlers"]++
 		}
 		// light-client implementations (reached through interfaces)
 		if fn.Signature.Recv() != nil {
@@ -269,6 +278,77 @@ func mapRangeOrderInsensitive(c *Check, fn *ssa.Function, rng *ssa.Range) (bool,
 			}
 		}
 	}
+	// early exits: an edge out of the loop other than the iterator's own end. One kind of early exit with an
+	// iteration-independent outcome is an existence test (order-free); an outcome that depends on the element, or two
+	// different kinds of early exit (which one an execution takes depends on which element comes first), is not
+	var head *ssa.BasicBlock
+	for _, r := range *rng.Referrers() {
+		if n, ok := r.(*ssa.Next); ok {
+			head = n.Block()
+		}
+	}
+	kinds := map[string]bool{}
+	for b := range blocks {
+		for _, s := range b.Succs {
+			if blocks[s] || (b == head && len(b.Succs) == 2 && s == b.Succs[1]) {
+				continue
+			}
+			for _, ins := range s.Instrs {
+				if ph, ok := ins.(*ssa.Phi); ok {
+					for i, p := range s.Preds {
+						if p == b && dependsOnIter(ph.Edges[i]) {
+							return false, "leaves the loop early carrying a value of the current element (first match wins depends on order) at " + c.P.Pos(b.Instrs[len(b.Instrs)-1].Pos())
+						}
+					}
+				}
+			}
+			// outcomes of this early exit: the returns it can reach before it joins the code after the loop
+			var done *ssa.BasicBlock
+			if head != nil && len(head.Succs) == 2 {
+				done = head.Succs[1]
+			}
+			seen := map[*ssa.BasicBlock]bool{}
+			var walk func(t *ssa.BasicBlock) string
+			walk = func(t *ssa.BasicBlock) string {
+				if t == done || blocks[t] || len(seen) > 24 {
+					kinds["continues after the loop"] = true
+					return ""
+				}
+				if seen[t] {
+					return ""
+				}
+				seen[t] = true
+				if ret, ok := t.Instrs[len(t.Instrs)-1].(*ssa.Return); ok && t != fn.Recover {
+					key := "return"
+					for _, r := range ret.Results {
+						if dependsOnIter(r) {
+							return "returns a value that depends on the iteration element (first match wins depends on order) at " + c.P.Pos(ret.Pos())
+						}
+						key += " " + x.E(r).String()
+					}
+					kinds[key] = true
+					return ""
+				}
+				for _, n := range t.Succs {
+					if why := walk(n); why != "" {
+						return why
+					}
+				}
+				return ""
+			}
+			if why := walk(s); why != "" {
+				return false, why
+			}
+		}
+	}
+	if len(kinds) > 1 {
+		var ks []string
+		for k := range kinds {
+			ks = append(ks, trunc(k))
+		}
+		sort.Strings(ks)
+		return false, "the loop has more than one kind of early exit (" + strings.Join(ks, "; ") + "): which one is taken depends on the iteration order"
+	}
 	if appended {
 		// a sort call on the accumulated slice after the loop
 		sorted := false
@@ -451,6 +531,15 @@ func c14(c *Check) {
 	c.Rule("C14/roots", "block-processing entry points: message servers, EVM hooks, IBC middleware, governance handlers, module Begin/EndBlock/InitGenesis, app ABCI entry points, upgrade handlers, every method of the four light-client implementations", 100)
 	for _, r := range roots {
 		c.Ok("C14/roots", funcName(r), r.Pos(), "root")
+	}
+	var rootClasses []string
+	for k := range c14RootClasses {
+		rootClasses = append(rootClasses, k)
+	}
+	sort.Strings(rootClasses)
+	for _, k := range rootClasses {
+		n := c14RootClasses[k]
+		c.Req(n > 0, "C14/roots", "root class: "+k, token.NoPos, fmt.Sprint(n, " root(s)"), "no entry point of class '"+k+"' was found: the pattern that names them no longer matches (anchor drifted)")
 	}
 	c.Rule("C14/nondeterminism-source", "every map range, wall-clock read, random source, OS/filesystem/network access, goroutine, channel operation and runtime query reachable from the roots is discharged: map ranges by an order-insensitive body (append+sort, map-to-map, invariant returns), wall clock by flowing only into telemetry, everything else by an audited entry whose side condition is re-checked", 45)
 	condCache := map[string]string{}
